@@ -8,7 +8,7 @@
    casts them to; `hashed_fields` = ID, PrevAlh, Ts, Version, metadata bytes (version 1), NEntries,
    Eh, BlTxID, BlRoot.  Sessions against an arbitrary server: Proofs/Session.v. *)
 From V Require Import Proofs.History Proofs.Session Proofs.Binding Proofs.Linear
-  Proofs.Sound Proofs.Fork Proofs.HistoryB Proofs.Refuted Merkle.Sound.
+  Proofs.Sound Proofs.Fork Proofs.HistoryB Proofs.Refuted Proofs.Gen Proofs.Complete Proofs.Unique Merkle.Sound Merkle.Verify.
 
 (* Alh commits to every hashed header field: two valid headers with the same Alh agree on all of
    them (so a header altered in any of these fields no longer matches a trusted Alh). *)
@@ -153,6 +153,93 @@ Theorem C01_verified_read_sound :
 Proof. exact verified_read_sound. Qed.
 Print Assumptions C01_verified_read_sound.
 
+(* COMPLETENESS. The honest proofs are those of Proofs/Gen.v: what ImmuStore.LinearProof /
+   LinearAdvanceProof / DualProof / DualProofV2 / Tx.Proof assemble, with the honest Merkle sibling
+   paths of coq/Merkle; the correspondence run compares them term by term with the proofs the real
+   store generates (cases CLinGen, CDualGen incl. lagging histories, CEntryGen).
+
+   VerifyLinearProof accepts the honest linear proof between any two transactions of a well-formed
+   history. *)
+Theorem C01_linear_proof_complete :
+  forall (H : bytes -> bytes), (forall x, length (H x) = 32%nat) ->
+  forall (hs : list txhdr) (s t : N),
+    wf_hist H hs -> 1 <= s -> s <= t -> t <= lenN hs ->
+    verify_linear_proof H (gen_linear_proof H hs s t) s t (A_at H hs s) (A_at H hs t) = true.
+Proof. exact linear_proof_complete. Qed.
+Print Assumptions C01_linear_proof_complete.
+
+(* VerifyDualProof accepts the honest dual proof for EVERY well-formed history (any length, any lag
+   of the binary linking: inclusion, last-inclusion, linear and linear-advance parts are all
+   covered) and every 1 <= i <= j <= n — relative to the consistency terms `cons` being accepted by
+   ahtree.VerifyConsistency (their generator, AHtree.ConsistencyProof, is not modelled; the premise
+   is void when the source's BlTxID is 0). *)
+Theorem C01_dual_proof_complete :
+  forall (H : bytes -> bytes), (forall x, length (H x) = 32%nat) ->
+  forall (hs : list txhdr) (cons : list bytes) (i j : N),
+    wf_hist H hs -> 1 <= i -> i <= j -> j <= lenN hs ->
+    (0 < h_bltxid (hd_at hs i) ->
+     verify_consistency H cons (h_bltxid (hd_at hs i)) (h_bltxid (hd_at hs j))
+                        (h_blroot (hd_at hs i)) (h_blroot (hd_at hs j)) = Ok true) ->
+    verify_dual_proof H (Some (gen_dual_proof H hs cons i j)) i j (A_at H hs i) (A_at H hs j) = Ok true.
+Proof. exact dual_proof_complete. Qed.
+Print Assumptions C01_dual_proof_complete.
+
+(* The same for VerifyDualProofV2 (headers with BlTxID = ID - 1, which the verifier demands). *)
+Theorem C01_dual_proof_v2_complete :
+  forall (H : bytes -> bytes), (forall x, length (H x) = 32%nat) ->
+  forall (hs : list txhdr) (cons : list bytes) (i j : N),
+    wf_hist H hs -> 1 <= i -> i <= j -> j <= lenN hs ->
+    h_bltxid (hd_at hs i) = i - 1 -> h_bltxid (hd_at hs j) = j - 1 ->
+    (i < j ->
+     (if i =? 1
+      then verify_consistency H cons i (j - 1) (leaf_for H (A_at H hs i)) (h_blroot (hd_at hs j))
+      else verify_consistency H cons (i - 1) (j - 1) (h_blroot (hd_at hs i)) (h_blroot (hd_at hs j))) = Ok true) ->
+    verify_dual_proof_v2 H (Some (gen_dual_proof_v2 H hs cons i j)) i j (A_at H hs i) (A_at H hs j) = Ok true.
+Proof. exact dual_proof_v2_complete. Qed.
+Print Assumptions C01_dual_proof_v2_complete.
+
+(* store.VerifyInclusion accepts Tx.Proof of every entry of every transaction (no side condition). *)
+Theorem C01_entry_inclusion_complete :
+  forall (H : bytes -> bytes), (forall x, length (H x) = 32%nat) ->
+  forall (v : N) (es : list entry) (idx : N) (e : entry),
+    nth_error es (N.to_nat idx) = Some e ->
+    verify_entry_inclusion H (gen_entry_proof H v es idx) (entry_digest H v e) (eh_of H v es) = true.
+Proof. exact entry_inclusion_complete. Qed.
+Print Assumptions C01_entry_inclusion_complete.
+
+(* The client's step (Proofs/Session.v client_step: source/target selection of VerifiedTxByID and
+   verifiedGet, trusted pair taken from the client's state) accepts every honest answer: from no
+   state or any state of the history, a verified read of any transaction v ends in the state of the
+   history at max(trusted id, v). *)
+Theorem C01_client_accepts_honest :
+  forall (H : bytes -> bytes), (forall x, length (H x) = 32%nat) ->
+  forall (hs : list txhdr) (cons : list bytes) (st : option (N * bytes)) (v : N),
+    wf_hist H hs -> 1 <= v -> v <= lenN hs ->
+    let s := match st with Some x => fst x | None => v end in
+    (1 <= s /\ s <= lenN hs /\ (forall x, st = Some x -> snd x = A_at H hs s)) ->
+    let i := N.min s v in let j := N.max s v in
+    (0 < h_bltxid (hd_at hs i) ->
+     verify_consistency H cons (h_bltxid (hd_at hs i)) (h_bltxid (hd_at hs j))
+                        (h_blroot (hd_at hs i)) (h_blroot (hd_at hs j)) = Ok true) ->
+    client_step H st v (gen_dual_proof H hs cons i j) = Ok (Some (j, A_at H hs j)).
+Proof. exact client_accepts_honest. Qed.
+Print Assumptions C01_client_accepts_honest.
+
+(* Towards consistency against an ARBITRARY server (partial): against one and the same root — which
+   need not be the root of any genuine tree — two accepted inclusion proofs of the SAME LENGTH for the
+   same position (i, j) carry the same payload. The full statement (without the length premise) is
+   refuted for the code as it stands (over-long proofs: session_consistency_v2_refuted); it becomes
+   this theorem once ahtree.VerifyInclusion pins the proof length as a function of (i, j). *)
+Theorem C01_inclusion_unique_same_length_partial :
+  forall (H : bytes -> bytes), (forall x, length (H x) = 32%nat) ->
+  forall (t1 t2 : list bytes) (i j : N) (a b root : bytes),
+    len32 t1 -> len32 t2 -> length t1 = length t2 ->
+    verify_inclusion H t1 i j (leafh H a) root = true ->
+    verify_inclusion H t2 i j (leafh H b) root = true ->
+    a = b \/ Collision H.
+Proof. exact inclusion_unique_same_length. Qed.
+Print Assumptions C01_inclusion_unique_same_length_partial.
+
 (* NEGATIVE RESULTS about the code as it stands are in Proofs/Refuted.v (witnesses computed with the
    executable SHA-256, whose primitive-integer operations Print Assumptions would list; the file is
    compiled on every run through Tie/C01.v; replayed on the Go verifiers by the harness):
@@ -160,6 +247,12 @@ Print Assumptions C01_verified_read_sound.
                                            for VerifyDualProof on headers whose binary linking lags
                                            (source.BlTxID < target.BlTxID < sourceTxID): a forged
                                            leaf enters the tree unrelated to the source's chain;
+     session_consistency_v2_refuted,       session consistency is FALSE for VerifyDualProofV2 and for
+     session_consistency_v1_overlong_refuted  VerifyDualProof on ORDINARY headers as well: against a root
+                                           that is not the root of a genuine tree of the claimed size,
+                                           ahtree.VerifyInclusion accepts over-long proofs (it checks
+                                           (i-1)>>len = (j-1)>>len only) and VerifyLastInclusion checks no
+                                           length, so one state commits to two Alh values at one position;
      dual_proof_v2_same_id_refuted         VerifyDualProofV2 with sourceTxID = targetTxID accepts
                                            two different Alh values;
    and, fixed in /repo (d34d669): session_family_a_before_repair_refuted (the verifier before the
